@@ -49,4 +49,13 @@ m = {
     'notes': 'See DESIGN.md. known_findings.json lists recorded and fixed defects. VERIF_REPO overrides the repository path (default /repo).',
 }
 json.dump(m, open(os.path.join(V, 'MANIFEST.json'), 'w'), indent=1)
+findings, fixed = [], []
+for i in ids:
+    f = os.path.join(V, 'props', i + '.findings.json')
+    if os.path.exists(f):
+        d = json.load(open(f))
+        findings.extend(d.get('findings', []))
+        fixed.extend(d.get('fixed', []))
+json.dump({'_comment': "Committed list of genuine defects of radical.pilot found by the checks (assembled by tools/mkmanifest.py from props/Cxx.findings.json). 'findings' are recorded, not repaired: a check prints KNOWN-FINDING for a violation whose signature is listed and exits 0; any other violation is reported. 'fixed' entries document repaired defects ('fix:' commits in /repo) and suppress nothing. Never written at run time.",
+           'findings': findings, 'fixed': fixed}, open(os.path.join(V, 'known_findings.json'), 'w'), indent=1)
 print('MANIFEST.json: %d checks, %d not claimed' % (len(checks), len(na)))
